@@ -65,27 +65,27 @@ Proof.
 Qed.
 
 (* ---------------------------------------------------------------- greedy: the returned (indices, weights) *)
-Fixpoint incr (l : list nat) : bool :=
+Fixpoint increasing (l : list nat) : bool :=
   match l with
-  | a :: (b :: _) as t => (a <? b) && incr t
+  | a :: (b :: _) as t => (a <? b) && increasing t
   | _ => true
   end.
 
-Lemma incr_SS l : incr l = true <-> StronglySorted lt l.
+Lemma increasing_SS l : increasing l = true <-> StronglySorted lt l.
 Proof.
   split.
   - intros H. apply Sorted_StronglySorted; [intros x y z; apply Nat.lt_trans|].
     induction l as [|a t IH]; [constructor|]. destruct t as [|b t'].
     + constructor; constructor.
-    + cbn [incr] in H. apply andb_true_iff in H as [H1 H2]. apply Nat.ltb_lt in H1.
+    + cbn [increasing] in H. apply andb_true_iff in H as [H1 H2]. apply Nat.ltb_lt in H1.
       constructor; [apply IH; exact H2|]. constructor. exact H1.
   - intros H. apply StronglySorted_Sorted in H. induction l as [|a t IH]; [reflexivity|]. destruct t as [|b t'].
     + reflexivity.
-    + cbn [incr]. inversion H as [|? ? Hs Hh]; subst. inversion Hh; subst.
+    + cbn [increasing]. inversion H as [|? ? Hs Hh]; subst. inversion Hh; subst.
       apply andb_true_iff. split; [apply Nat.ltb_lt; assumption|apply IH; exact Hs].
 Qed.
 
-Definition ok_idx (n : nat) (idx : list nat) : bool := incr idx && forallb (fun i => i <? n) idx.
+Definition ok_idx (n : nat) (idx : list nat) : bool := increasing idx && forallb (fun i => i <? n) idx.
 Definition ok_count (bound : nat) (idx : list nat) : bool := (1 <=? length idx) && (length idx <=? bound).
 Definition ok_pos (ws : list Q) : bool := forallb (fun w => negb (Qle_bool w 0)) ws.
 Definition ok_sum (tol : Q) (ws : list Q) : bool := Qle_bool (1 - tol) (sumQ ws) && Qle_bool (sumQ ws) (1 + tol).
@@ -96,7 +96,7 @@ Definition ok_wf (tol : Q) (n bound : nat) (out : list (nat * Q)) : bool :=
 Lemma ok_wf_spec tol n bound out : ok_wf tol n bound out = true <-> GreedyWF tol n bound out.
 Proof.
   unfold ok_wf, GreedyWF, ok_idx, ok_count, ok_pos, ok_sum.
-  rewrite !andb_true_iff, incr_SS, !forallb_forall, !Forall_forall, Nat.leb_le, Nat.leb_le, !Qle_bool_iff, map_length.
+  rewrite !andb_true_iff, increasing_SS, !forallb_forall, !Forall_forall, Nat.leb_le, Nat.leb_le, !Qle_bool_iff, map_length.
   split.
   - intros [[[[H1 H2] [H3 H4]] H5] [H6 H7]]. repeat split; try assumption.
     + intros i Hi. apply Nat.ltb_lt, H2, Hi.
